@@ -19,7 +19,7 @@ package http_api
 //@ ghost r4EHCReqTO int
 //@ ghostgroup r4EHCCalls, r4EHCTLS, r4EHCConnTO, r4EHCReqTO
 //@ func NewClient(tlsConfig *tls.Config, connectTimeout time.Duration, requestTimeout time.Duration) *Client
-//@   props C11
+//@   props C11 C16 C18
 //@   nochan
 //@   ensures[new] result != nil && fresh(result) && result.c != nil && fresh(result.c)
 //@   ensures[tls-as-given] dyntype(result.c.Transport) == typetag("*http.Transport") && unbox(result.c.Transport, "*http.Transport") != nil && unbox(result.c.Transport, "*http.Transport").TLSClientConfig == tlsConfig
